@@ -774,6 +774,14 @@ def c09_range_hook(driver):
 
             if ls_ and 0 <= pos_["line"] < len(ls_) and _re.match(r"\s*include\s*['\"]", ls_[pos_["line"]], _re.I):
                 qual = " on an INCLUDE statement"
+            elif what.endswith("/definition") and isinstance(payload, dict) and payload.get("uri") != \
+                    m_["params"]["textDocument"]["uri"] and payload.get("range") == {
+                        "start": {"line": pos_["line"], "character": 0}, "end": {"line": pos_["line"], "character": 0}}:
+                # the same call site seen from the answer: the link a server builds for a line it
+                # (still) holds to be an INCLUDE statement is '<included file>, <the statement's own
+                # line>, column 0' - also when an in-line edit has meanwhile turned the line into
+                # something else without a re-parse
+                qual = " on an INCLUDE statement"
         except Exception:
             pass
         for uri, rng, key in pairs:
